@@ -28,9 +28,12 @@ CHECKS["C14"] = dict(
     text="Every string of length <= 6 (thorough 7) over three 14-character alphabets of lexically critical characters (2.4e7 / 3.4e8 strings) "
          "goes through tokenize and LexedStr with the partition clauses evaluated on each; the robustness corpus (repository texts, mutations, "
          "random UTF-8 incl. NUL and multi-byte, nesting) is lexed and a stride sample of the recorded token streams and tables is validated by "
-         "TLC against LexTrace.tla, whose clauses are the statement of C14.",
-    note="partition clauses evaluated natively at scale and by TLC on the recorded sample; random inputs <= 4 KiB",
-    technique="bounded-exhaustive enumeration + TLC trace validation of recorded token streams (LexTrace.tla)",
+         "TLC against LexTrace.tla, whose clauses are the statement of C14. Lexer.tla is a machine spec of Cursor::advance_token and every scanner; TLC (MCLexer) "
+         "visits every text of <= 4 (thorough 5) chunks over five chunk sets (4.9e5 / 3.6e6 texts), proves the C14 clauses on the model's stream in every state and exports each "
+         "state; the real tokenize must produce the model's stream (kind, length, flags, suffix offset; drift otherwise) and satisfy the clauses; recorded streams of "
+         "corpus/mutated/random texts are validated by TLC against the machine spec (LexerTrace.tla).",
+    note="partition clauses evaluated natively at scale and by TLC on the recorded sample; random inputs <= 4 KiB; Unicode classes by representatives",
+    technique="TLA+ machine spec of the lexer model-checked by TLC for the C14 clauses + every state replayed into the real lexer + TLC trace validation of recorded token streams",
     engine="walker+tlc")
 CHECKS["C15"] = dict(
     level="model_checking", design="5/C15, 4.2",
@@ -62,8 +65,12 @@ _parse_text = ("Both public parse entry points are driven over every token seque
     "observations is validated by TLC against TreeTrace.tla/TreeShape.tla. ")
 CHECKS["C01"] = dict(level="model_checking", design="5/C01", text=_parse_text + "C01 verdict: the call returns, parser events <= 64*(tokens+1).",
     note="bounds: random inputs <= 4 KiB, nesting <= 64; rowan trusted", technique="bounded-exhaustive token sequences + TLC trace validation (TreeTrace.tla) of recorded parses", engine="walker+tlc")
-CHECKS["C02"] = dict(level="model_checking", design="5/C02", text=_parse_text + "C02 verdict: TreeShape!Lossless (root, leaf text, tiling, node = span of children) on every observation.",
-    note="clauses evaluated natively at scale and by TLC on the recorded sample", technique="TLA+ tree-shape requirement checked by TLC on recorded trees + native evaluation at scale", engine="walker+tlc")
+CHECKS["C02"] = dict(level="model_checking", design="5/C02", text=_parse_text + "C02 verdict: TreeShape!Lossless (root, leaf text, tiling, node = span of children) on every observation. "
+    "Protocol level: Events.tla models Parser/Marker/CompletedMarker, event::process (forward parents, tombstones) and intersperse_trivia/Builder; TLC proves TreeShapeHolds, BuilderNeverOverruns and Balanced "
+    "for every disciplined call sequence up to the bound over every trivia layout (2.4e5 / 2e7 states) and every finished behaviour (3.2e3 / 1.1e5) is executed on the real Marker API, process and intersperse_trivia "
+    "through the hook oq3_parser::verif::drive, delivered steps compared. Conversely the Marker-API calls the real grammar makes on corpus/mutated/random texts are recorded (hook keep_ops) "
+    "and validated by TLC against EventsTrace.tla: the grammar is a disciplined client and the real raw events and builder steps are exactly what the machine spec computes (400 / 5 000 parses).",
+    note="clauses evaluated natively at scale and by TLC on the recorded sample; protocol model bounded to 2-3 raw tokens and 7-9 calls", technique="TLA+ machine spec of the event protocol model-checked by TLC + every behaviour replayed into the real Marker API; TLA+ tree-shape requirement checked by TLC on recorded trees + native evaluation at scale", engine="walker+tlc")
 CHECKS["C12"] = dict(level="model_checking", design="5/C12", text=_parse_text + "C12 verdict: TreeShape!SpansValid and ErrorHasDiag on every observation (syntax diagnostics); semantic spans are covered by the analyser checks.",
     note="syntax and lexical diagnostics only in this check", technique="TLA+ span/tree monitors checked by TLC on recorded observations + native evaluation at scale", engine="walker+tlc")
 _gram = ("RefGrammar.tla states the supported OpenQASM 3 subset as abstract syntax with a printer that inserts exactly the parentheses the language's precedence "
@@ -120,7 +127,7 @@ m = {
         "guard": "oq3_verif",
         "enable": "RUSTFLAGS --cfg oq3_verif via /verif/harness/.cargo/config.toml (the harness has path dependencies on /repo/crates/*)",
         "baseline_off_cmd": "cd /repo && cargo test --workspace --no-fail-fast --offline",
-        "source_commits": ["f36a573", "c9e57bc", "57d4869"],
+        "source_commits": ["f36a573", "c9e57bc", "57d4869", "ba4f29c", "3bf80c6"],
         "add_only": True,
     },
     "engines": [
